@@ -140,6 +140,7 @@ class Cases:
     def __init__(self):
         self.lits = []       # (kind, src, want, klass_if_wrong)
         self.names = []      # (name, should_work, klass)
+        self.embs = []       # (source, want) interpolated strings: implementation vs oracle only
         self.seen = set()
 
     def lit(self, kind, src, want, klass):
@@ -174,6 +175,16 @@ class Cases:
     def str_case(self, body):
         w = want_str(body)
         self.lit("str", '"' + body + '"', w, "C17:bad-escape" if w == "x" else "C17:string-decode")
+
+    def emb_case(self, parts):
+        ws = [want_str(p) for p in parts]
+        src = '"' + parts[0] + "#{1}" + parts[1] + "#{2}" + parts[2] + '"'
+        if "x" in ws:
+            want = "x"
+        else:
+            raw = bytes.fromhex(ws[0][2:]) + b"1" + bytes.fromhex(ws[1][2:]) + b"2" + bytes.fromhex(ws[2][2:])
+            want = "s:" + raw.hex()
+        self.embs.append((src, want))
 
     def name(self, n):
         if n in self.seen:
@@ -384,6 +395,15 @@ def gen_cases(chk):
         c.str_case(body)
 
     # --- 5. names
+    for n in ("a_", "a__", "a__b", "if_", "max__len", "done_?", "x_!", "_a_", "_a__b", "A_", "a1_2__3", "_p_?", "z__"):
+        c.name(n)
+    # interpolated strings: every piece (before, between, after the interpolations) is decoded / refused alike
+    for ch in "nrt\\\"0dq x":
+        esc = "\\" + ch
+        for where in range(3):
+            parts = ["h", "m", "t"]
+            parts[where] = "a" + esc + "b"
+            c.emb_case(parts)
     for kw in KEYWORDS:
         c.name(kw)
         for mark in "!?":
@@ -463,6 +483,14 @@ def main(chk):
         if o["r"] != want:
             failing.append((klass, "literal `%s` evaluates to %s, the written value demands %s" % (src, o["r"], want),
                             {"harness": "litval", "src": src, "got": o["r"], "want": want, "form": kind}))
+    eouts = harness("litval", [{"src": s} for s, _ in c.embs], shards=NCPU)
+    for (src, want), o in zip(c.embs, eouts):
+        hist["embedded-str"] = hist.get("embedded-str", 0) + 1
+        chk.count(("emb", src), True)
+        if o["r"] != want:
+            failing.append(("C17:bad-escape" if want == "x" else "C17:string-decode",
+                            "interpolated string `%s` evaluates to %s, the written text demands %s" % (src, o["r"], want),
+                            {"harness": "litval", "src": src, "got": o["r"], "want": want, "form": "embedded-str"}))
     for (n, should, klass), o in zip(names, nouts):
         hist["name"] = hist.get("name", 0) + 1
         chk.count(("name", n), True)
@@ -471,6 +499,16 @@ def main(chk):
             failing.append((klass, "name `%s` matches [a-zA-Z_][a-zA-Z0-9_]*[!?]? and is not reserved, but does not work as %s (`%s := 1; %s` -> %s, `{%s: 1}.%s` -> %s, `'%s` -> %s)"
                             % (n, "/".join(what), n, n, o["raw"][0], n, n, o["raw"][1], n, o["raw"][2]),
                             {"harness": "litval", "name": n, "got": o, "want": "var, prop and sym all work"}))
+        if should and klass != "C17:underscore-nonletter":
+            private = n.startswith("_")
+            # `sym?` follows object/str.go's own patterns, which know one leading underscore only
+            need_symp = not n.startswith("__") and n != "_"
+            okl = o.get("listed") and (o.get("symp") or not need_symp) and (o.get("public") == (not private))
+            if not okl:
+                failing.append(("C17:name-listing", "name `%s` is accepted but is not treated as a %s property name / symbol "
+                                "(`{%s: 1}.keys(private?: true).has?`, `.keys.has?`, `'%s.sym?` -> %s)" % (
+                                    n, "private" if private else "public", n, n, o.get("rawlist")),
+                                {"harness": "litval", "name": n, "got": o, "want": "listed by keys, public iff no leading `_`, sym? true"}))
         if n in KEYWORDS and (o["var"] or o["prop"]):
             failing.append(("C17:reserved", "reserved word `%s` is accepted as a name" % n, {"harness": "litval", "name": n, "got": o}))
 
